@@ -56,6 +56,11 @@ func (u *Upstream) String() string {
 }
 
 func (u *Upstream) provision(ctx caddy.Context, h *Handler) error {
+	// an upstream without peers would always look available and take connections it cannot pass on
+	if len(u.Dial) == 0 {
+		return fmt.Errorf("upstream has no dial address")
+	}
+
 	repl := caddy.NewReplacer()
 	for _, dialAddr := range u.Dial {
 		// replace runtime placeholders
